@@ -437,6 +437,17 @@ func (g *Gen) one() Op {
 		return Op{Kind: "GetNodeStatus", N: pick(r, NodesU)}
 	case x < 92:
 		id := pick(r, WIDs)
+		if g.StatusHeavy && len(g.S.W) > 0 && r.Intn(4) != 0 {
+			ids := make([]string, 0, len(g.S.W))
+			for _, w := range WIDs {
+				if _, ok := g.S.W[w]; ok && g.S.Keys["/workloads/"+w] {
+					ids = append(ids, w)
+				}
+			}
+			if len(ids) > 0 {
+				id = pick(r, ids)
+			}
+		}
 		a, e, n := pick(r, Apps), pick(r, Entries), pick(r, NodesU)
 		if w, ok := g.S.W[id]; ok && r.Intn(6) != 0 {
 			if pa, pe, ok := ParseName(w.Name); ok {
